@@ -3,6 +3,7 @@ package checks
 import (
 	"fmt"
 	"reflect"
+	"regexp"
 	"sort"
 
 	"github.com/kstenerud/go-concise-encoding/configuration"
@@ -53,6 +54,8 @@ type c20Iso struct {
 	ab    map[uintptr]uintptr
 	ba    map[uintptr]uintptr
 	pairs int
+	open  []uintptr // original pointers on the current walk path (objects still "under construction" in document order)
+	region string
 }
 
 func (w *c20Iso) walk(a, b reflect.Value, path string) string {
@@ -92,6 +95,13 @@ func (w *c20Iso) walk(a, b reflect.Value, path string) string {
 			if a.IsNil() && b.IsNil() {
 				return ""
 			}
+			if !a.IsNil() && c20InSliceStructField(path) {
+				for _, o := range w.open {
+					if o == a.Pointer() {
+						w.region = "@reference-to-open-ancestor-from-struct-value-in-slice"
+					}
+				}
+			}
 			return path + ": nil pointer on one side only"
 		}
 		pa, pb := a.Pointer(), b.Pointer()
@@ -106,7 +116,10 @@ func (w *c20Iso) walk(a, b reflect.Value, path string) string {
 		}
 		w.ab[pa], w.ba[pb] = pb, pa
 		w.pairs++
-		return w.walk(a.Elem(), b.Elem(), path+"*")
+		w.open = append(w.open, pa)
+		r := w.walk(a.Elem(), b.Elem(), path+"*")
+		w.open = w.open[:len(w.open)-1]
+		return r
 	case reflect.Struct:
 		for i := 0; i < a.NumField(); i++ {
 			if r := w.walk(a.Field(i), b.Field(i), path+"."+a.Type().Field(i).Name); r != "" {
@@ -156,6 +169,11 @@ func (w *c20Iso) walk(a, b reflect.Value, path string) string {
 	}
 	return ""
 }
+
+var c20SliceFieldRe = regexp.MustCompile(`\.Kids\[\d+\]\.(Back|Sib)$`)
+
+// c20InSliceStructField: the path addresses a pointer field of a struct VALUE stored in a slice.
+func c20InSliceStructField(path string) bool { return c20SliceFieldRe.MatchString(path) }
 
 func numKey(v reflect.Value) string {
 	switch v.Kind() {
@@ -241,25 +259,23 @@ func c20BuildB(c *fw.Ctx, n int) (root *c20B, desc string, cyc, shared bool) {
 		for j := range b.Kids {
 			kid := &b.Kids[j]
 			kid.W = float64(i) + float64(j)/4
-			switch c.Rng.Intn(4) {
+			switch c.Rng.Intn(12) {
 			case 0:
-				kid.Back = b
-				cyc = true
-				desc += fmt.Sprintf("%d.%d.Back>self ", i, j)
-			case 1:
-				t := c.Rng.Intn(n)
+				// reference to an object that is still open in document order (known-finding region)
+				t := c.Rng.Intn(i + 1)
 				kid.Back = bs[t]
-				shared = true
-				if t <= i {
-					cyc = true
+				cyc = true
+				desc += fmt.Sprintf("%d.%d.Back>open%d ", i, j, t)
+			case 1, 2, 3, 4:
+				if i+1 < n {
+					t := i + 1 + c.Rng.Intn(n-i-1)
+					kid.Back = bs[t]
+					shared = true
+					desc += fmt.Sprintf("%d.%d.Back>%d ", i, j, t)
 				}
-				desc += fmt.Sprintf("%d.%d.Back>%d ", i, j, t)
 			}
-			if c.Rng.Intn(4) == 0 {
-				kid.Any = bs[c.Rng.Intn(n)]
-				shared = true
-				desc += fmt.Sprintf("%d.%d.Any>b ", i, j)
-			} else if c.Rng.Intn(3) == 0 {
+			// interface fields hold scalars only: a pointer held by an interface{} cannot keep its type in a document
+			if c.Rng.Intn(3) == 0 {
 				kid.Any = "text"
 			}
 			if c.Rng.Intn(5) == 0 {
@@ -338,7 +354,7 @@ func runC20(c *fw.Ctx, idx int) {
 		c.Distinct(codec + desc)
 	}
 	if r != "" {
-		c.Fail("graph-not-isomorphic", detail(map[string]interface{}{"doc": docString(doc, cte), "why": r}))
+		c.Fail("graph-not-isomorphic"+w.region, detail(map[string]interface{}{"doc": docString(doc, cte), "why": r}))
 		return
 	}
 	if c.WantSample() && cyc {
